@@ -7,6 +7,6 @@ git -C /repo apply "$PATCH" || { echo "patch does not apply"; exit 2; }
 trap 'git -C /repo checkout -- . ; git -C /repo clean -fdq -- src isoquant.py 2>/dev/null' EXIT INT TERM
 for id in "$@"; do
     echo "=== $id"
-    VERIF_NO_REPLAY_WRITE=1 timeout 1500 ./check "$id" 2>&1 | grep -v "^  detail\|KNOWN-FINDING" | cut -c1-260 | tail -8
+    VERIF_SCRATCH_OUT=/tmp/iqverif-mutant-out timeout 1500 ./check "$id" 2>&1 | grep -v "^  detail\|KNOWN-FINDING" | cut -c1-260 | tail -8
     echo "exit=$?"
 done
